@@ -9,16 +9,27 @@ mod rng;
 mod scenario;
 mod sup;
 mod sut;
+mod threads;
 
 #[global_allocator]
 static GLOBAL: alloc::CountingAlloc = alloc::CountingAlloc;
 
 fn default_runs(prop: &str, tier: gen::Tier) -> u64 {
     let (q, t) = match prop {
-        "C03" => (6000, 60000),
-        "C04" => (6000, 60000),
-        "C07" => (3000, 30000),
-        "C09" => (6000, 40000),
+        "C03" => (120_000, 1_800_000),
+        "C04" => (120_000, 1_800_000),
+        "C05" => (80_000, 1_200_000),
+        "C06" => (80_000, 1_200_000),
+        "C07" => (50_000, 600_000),
+        "C09" => (120_000, 1_800_000),
+        "C10" => (80_000, 1_200_000),
+        "C11" => (60_000, 900_000),
+        "C12" => (30_000, 450_000),
+        "C13" => (60_000, 900_000),
+        "C15" => (30_000, 400_000),
+        "C16" => (80_000, 1_200_000),
+        "C17" => (60_000, 900_000),
+        "C18" => (6_000, 80_000),
         _ => (3000, 30000),
     };
     if tier == gen::Tier::Quick {
@@ -58,6 +69,7 @@ fn main() {
             sup::worker_main(prop, tier, base, start, end, stride);
         }
         "eval" => sup::eval_file_main(&args[2]),
+        "solo" => threads::solo_main(&args[2], args[3].parse().unwrap()),
         "replay" => std::process::exit(sup::replay_main(&args[2])),
         "gen" => {
             let prop = &args[2];
@@ -96,7 +108,14 @@ fn main() {
                 k += 1;
             }
             let cc = sup::CheckCfg { prop: prop.clone(), tier, base, runs, workers: workers.max(1), level: level_of(&prop).to_string(), write_evidence };
-            std::process::exit(sup::check_main(&cc));
+            let code = match std::panic::catch_unwind(|| sup::check_main(&cc)) {
+                Ok(c) => c,
+                Err(_) => {
+                    eprintln!("HARNESS-ERROR: supervisor panicked: {}", exec::LAST_PANIC.with(|p| p.borrow().clone()));
+                    2
+                }
+            };
+            std::process::exit(code);
         }
         _ => usage(),
     }
